@@ -4,7 +4,6 @@ import (
 	"fmt"
 	"strings"
 
-	"github.com/nyaruka/gocommon/dates"
 	"github.com/nyaruka/gocommon/elastic"
 	"github.com/nyaruka/goflow/assets"
 	"github.com/nyaruka/goflow/contactql"
@@ -129,7 +128,7 @@ func fieldCondition(env envs.Environment, resolver contactql.Resolver, c *contac
 
 	} else if fieldType == assets.FieldTypeDatetime {
 		value, _ := c.ValueAsDate(env)
-		start, end := dates.DayToUTCRange(value, value.Location())
+		start, end := contactql.DayRange(value)
 		var query elastic.Query
 
 		switch c.Operator() {
@@ -224,7 +223,7 @@ func attributeCondition(env envs.Environment, resolver contactql.Resolver, mappe
 		return textAttributeQuery(c, "language", strings.ToLower)
 	case contactql.AttributeCreatedOn:
 		value, _ := c.ValueAsDate(env)
-		start, end := dates.DayToUTCRange(value, value.Location())
+		start, end := contactql.DayRange(value)
 
 		switch c.Operator() {
 		case contactql.OpEqual:
@@ -253,7 +252,7 @@ func attributeCondition(env envs.Environment, resolver contactql.Resolver, mappe
 		}
 
 		value, _ := c.ValueAsDate(env)
-		start, end := dates.DayToUTCRange(value, value.Location())
+		start, end := contactql.DayRange(value)
 
 		switch c.Operator() {
 		case contactql.OpEqual:
